@@ -153,7 +153,7 @@ class Translator:
             return ("path", ("lit", e[1]))
         if tag in ("paren",):
             return self.pure_val(e[1], st, fr)
-        if tag == "unary" and e[1] in ("&", "*"):
+        if tag == "unary" and e[1] in ("&", "*", "&mut"):
             return self.pure_val(e[2], st, fr)
         if tag == "unary" and e[1] == "!":
             v = self.pure_val(e[2], st, fr)
@@ -438,7 +438,7 @@ class Translator:
         by_value = True
         while e[0] in ("unary", "paren"):
             if e[0] == "unary":
-                if e[1] not in ("&", "*"): raise Unsupported(what + ": writer argument")
+                if e[1] not in ("&", "*", "&mut"): raise Unsupported(what + ": writer argument")
                 by_value = False
                 e = e[2]
             else:
@@ -459,7 +459,7 @@ class Translator:
             return k(self.pure_val(e, st, fr), st)
         if tag == "paren":
             return self.tr_expr(e[1], st, fr, k)
-        if tag == "unary" and e[1] in ("&", "*"):
+        if tag == "unary" and e[1] in ("&", "*", "&mut"):
             return self.tr_expr(e[2], st, fr, k)
         if tag == "unary" and e[1] == "!":
             def neg(val, s):
